@@ -658,8 +658,9 @@ func CreatorsFromCreateEvent(createEvent PDU) (creators []string) {
 	var content CreateContent
 	err := json.Unmarshal(createEvent.Content(), &content)
 	if err != nil {
-		// should not be possible as we already have made the PDU
-		panic("invalid create event content: " + string(createEvent.JSON()))
+		// A create event whose content has members of the wrong type (it came from
+		// another server) fails its own auth check; it names no additional creators.
+		return creators
 	}
 	creators = append(creators, content.AdditionalCreators...)
 	return creators
